@@ -37,7 +37,7 @@ func scanDeadRing(c *core.Ctx) []ob {
 			return r
 		}
 		type viol struct {
-			dst      string
+			dst           string
 			first, second token.Pos
 		}
 		var viols []viol
